@@ -111,7 +111,7 @@ class Prop:
             if rng.random() < 0.12:
                 toks.append(rng.choice(["-", "-1", "(2)", "|"]))
         return {"clock": rng.choice(["test", "historical"]), "string": "".join(toks), "timespan": rng.choice([1, 10, 10, 0.5, 0.1]),
-                "shift": rng.choice([0, 0, 0, 5, 0.5]), "lookup": rng.random() < 0.4, "form": rng.choice(["parse", "from_marbles", "cold", "hot"]),
+                "shift": rng.choice([0, 0, 0, 5, 0.5]), "lookup": rng.random() < 0.4, "form": rng.choice(["parse", "from_marbles", "cold", "hot"]), "schedulers": rng.choice([None, None, "other_at_subscribe", "subscribe_only"]),
                 "raise_stopped": rng.random() < 0.5, "sub_t": 203.25, "horizon": 1000,
                 # delivery forms: optionally a second, overlapping subscriber of the same observable, and an early unsubscription of the first
                 "sub2_off": rng.choice([None, None, 0.75, 3, 12.5, 40]), "unsub1_after": rng.choice([None, None, None, 2.25, 15, 33]),
@@ -155,9 +155,16 @@ class Prop:
                     box["obs"] = rx.hot(s, ts, due, lookup=lookup, error=err, scheduler=w.s)
                 else:
                     f = rx.from_marbles if sc["form"] == "from_marbles" else rx.cold
-                    box["obs"] = f(s, ts, lookup=lookup, error=err, scheduler=w.s)
+                    box["obs"] = f(s, ts, lookup=lookup, error=err, scheduler=None if sc.get("schedulers") == "subscribe_only" else w.s)
             except ValueError:
                 box["obs"] = "ValueError"
+                return
+            if sc.get("schedulers") == "other_at_subscribe":
+                # bound to w.s at creation, subscribed with another (parked) virtual scheduler: the creation-time scheduler wins
+                from reactivex import Observable
+                from reactivex.scheduler import HistoricalScheduler
+                other, inner = HistoricalScheduler(vt.UTC0 + timedelta(seconds=5000)), box["obs"]
+                box["obs"] = Observable(lambda o, s_=None: inner.subscribe(o, scheduler=other))
 
         w.at(t_create, create)
         subs = [(sub_t, sc.get("unsub1_after"))]
